@@ -39,6 +39,8 @@ pub fn profile(tier: Tier) -> Profile {
     p.w_reopen = 1;
     p.w_readers = 2;
     p.w_read = 3;
+    // half of the cases run with worker I/O faults (failed / short / torn writes, failed syncs)
+    p.faults = crate::ops::FaultGen::Io;
     p
 }
 
@@ -236,10 +238,16 @@ impl Prop for C07 {
         let mut info = CaseInfo::default();
         let _ = limited_cache(case);
         let tolerate = ctx.known.is_known(KNOWN_REAPPEND);
-        let res = with_run(&case.cfg, true, &[], |run| {
+        // Cases with injected worker faults: the boundary of the unchanged design is ambiguous
+        // after a failed sync, so there the known class is kept out by construction (ids only
+        // grow) and every read error counts. Clean restarts are left out (as in C04).
+        let faulty = !case.faults.is_empty() && case.sel & 1 == 1;
+        let faults: Vec<crate::trace::FaultRule> = if faulty { case.faults.clone() } else { vec![] };
+        let res = with_run(&case.cfg, true, &faults, |run| {
             // Re-appends at or below an earlier id are part of the search: the known finding is
             // recognised by its exact input class (pinwin::Window), not avoided wholesale.
-            run.avoid_low_reappend = false;
+            run.avoid_low_reappend = faulty;
+            let mut cut = false;
             let mut held: Option<Held> = None;
             let mut win = Window::default();
             let mut win_in_readers = false;
@@ -251,6 +259,7 @@ impl Prop for C07 {
                     }
                     match op {
                         OpSpec::Reject { .. } | OpSpec::Probe(_) | OpSpec::DropReopen { .. } => continue,
+                        OpSpec::Reopen { .. } if faulty => continue,
                         OpSpec::Reopen { cfg } => {
                             let r = reopen_checked(run, cfg);
                             win.track(run);
@@ -278,7 +287,17 @@ impl Prop for C07 {
                             }
                         }
                         _ => {
-                            let d = run.exec(op)?;
+                            let d = match run.exec(op) {
+                                Ok(d) => d,
+                                Err(f) if faulty && (f.key == "flush-call-err" || f.key == "legal-write-refused") => {
+                                    // the worker stopped on the injected error: the history ends
+                                    // here; what is in the store must stay readable
+                                    run.classes.hit("history_cut_by_fault");
+                                    cut = true;
+                                    break;
+                                }
+                                Err(f) => return Err(f),
+                            };
                             if std::env::var_os("RLV_DEBUG").is_some() {
                                 eprintln!("op {:?} -> {:?}\n   stat {}\n   resident {:?}\n   model {:?}\n   window {:?}", op, d, run.rl().stat(), run.rl().verif_cache_resident(), run.model.cur.st, win.known_window(run));
                             }
@@ -288,6 +307,24 @@ impl Prop for C07 {
                             check_reads_w(run, case.sel, &mut win)?;
                         }
                     }
+                }
+                if cut {
+                    // The refused call may have been applied in part (a batch is applied entry by
+                    // entry): every entry the store returns must be one the caller supplied.
+                    run.run_to_idle();
+                    for drain in [false, true] {
+                        if drain {
+                            run.rl().drain_cache_evictable();
+                        }
+                        let got = read_all(run.rl(), 0, u64::MAX).map_err(|e| Fail::new("read-error", format!("after the flush worker stopped on an injected I/O error{}: read(0,MAX) returned an error: {e}", if drain { " and the cache was drained" } else { "" })))?;
+                        for (id, p) in &got {
+                            match run.model.cur.log.get(&id.1) {
+                                Some((mid, mp)) if mid == id && mp == p => {}
+                                other => return Err(Fail::new("read-mismatch", format!("after the flush worker stopped on an injected I/O error: read returned {:?} with payload {:?}, supplied was {:?}", id, crate::driver::brief(&[(*id, p.clone())]), other.map(|x| x.0)))),
+                            }
+                        }
+                    }
+                    return Ok(());
                 }
                 run.run_to_idle();
                 check_reads_w(run, case.sel, &mut win)?;
